@@ -1,5 +1,6 @@
 /- Driver for stream `fault` (C08): judges one `faultcut` line per enumerated cut. -/
 import KrillModel.Fault.Model
+import KrillModel.Fault.FsOrder
 import KrillModel.Drivers.Json
 namespace KM.Drv.Fault
 open KM.Drv Lean
@@ -57,6 +58,43 @@ def inst (hasObj : Bool) (nTasks : Nat) : KM.Fault.Sys Nat Unit Unit Unit Nat Na
   apply := fun s _ => s + 1
   objUpd := fun o _ _ => if hasObj then some (o + 1) else none
   tasks := fun _ _ => List.range nTasks
+
+/-- File-system mutation `kind:repo/rrdp/<session>/<serial>/<random>/<file>` → order model.
+The generation is the serial; the commit is the rename of the new notification file and names
+the serial written last. -/
+def fsMuts (muts : List String) : List KM.Fault.Fs.Mut :=
+  let rec go (ms : List String) (last : Nat) (acc : List KM.Fault.Fs.Mut) : List KM.Fault.Fs.Mut :=
+    match ms with
+    | [] => acc.reverse
+    | m :: rest =>
+      match m.splitOn ":" with
+      | kind :: p :: _ =>
+        let segs := p.splitOn "/"
+        match segs with
+        | "repo" :: "rrdp" :: tail =>
+          let serial? : Option Nat := (tail.drop 1).head? >>= String.toNat?
+          let file := tail.getLastD ""
+          if kind == "rename" && file == "new-notification.xml" then go rest last (.commit last :: acc)
+          else if kind.startsWith "remove" || (kind == "rename" && tail.length == 2) then
+            -- a serial directory (or its snapshot) removed or archived
+            match serial? with
+            | some g => if tail.length == 2 || file == "snapshot.xml" then go rest last (.cleanup g :: acc) else go rest last (.other :: acc)
+            | none => go rest last (.other :: acc)
+          else if file == "snapshot.xml" then
+            match serial? with
+            | some g => go rest g (.write g :: acc)
+            | none => go rest last (.other :: acc)
+          else go rest last (.other :: acc)
+        | _ => go rest last (.other :: acc)
+      | _ => go rest last (.other :: acc)
+  go muts 0 []
+
+/-- The disk before the operation, as far as the order model needs it: the notification names
+the serial before the first one written, and that generation is present. -/
+def fsInitial (ms : List KM.Fault.Fs.Mut) : KM.Fault.Fs.Disk :=
+  match ms.findSome? (fun m => match m with | .write g => some g | _ => none) with
+  | some g => ⟨g - 1, [g - 1]⟩
+  | none => ⟨0, [0]⟩
 
 def opKind (ws : List String) : String :=
   match ws.dropWhile (· != "::") with
@@ -125,6 +163,15 @@ def step (st : St) (ws : List String) (j : Json) : St × String :=
         else none
       | none => none
     let implLogged := ents.any fun (_, e) => jnat (jget e "n_logged") > 0
+    -- file-system cuts: the observed order of the repository writer must follow the
+    -- discipline `fs_every_cut_valid` assumes
+    let fsBad : Option Nat := if domain == "fs" then
+        let fm := fsMuts muts
+        KM.Fault.Fs.firstBad (fsInitial fm) fm 0
+      else none
+    if let some i := fsBad then
+      (st, s!"FAIL model file-system order: mutation {i} ({muts.getD i "?"}) breaks the writer's discipline (commit only what is written, remove only what the notification does not name)")
+    else
     match predLogged with
     | some p =>
       if p != implLogged then
@@ -141,6 +188,8 @@ where
     let orc : List String :=
       (if loadP.isEmpty then [] else ["crash_loads"]) ++
       (if rpP.isEmpty then [] else ["rp_valid_at_cut"]) ++
+      ((jarr (jget j "rrdp_disk_at_cut")).map fun p => s!"rrdp_files_valid_at_cut:{jstr p}") ++
+      ((jarr (jget j "rrdp_disk_final")).map fun p => s!"rrdp_files_valid_after_recovery:{jstr p}") ++
       (if cut < firstClaim then (ents.flatMap fun (_, e) => entityPreds e).eraseDups else []) ++
       (if conv then [] else [s!"converge:{diffClass (jstr (jget j "diff"))}"])
     if orc.isEmpty then
